@@ -1,6 +1,7 @@
 (* C03: the parser of Parse.v inverts the printer of Parse.v on the whole core, for trees of any depth. *)
 From Coq Require Import String Ascii List ZArith NArith Bool Arith Lia.
-From OL Require Import PyAst Unparse Parse.
+From OL Require Import PyAst Unparse.
+From OL Require Import Parse.
 From OLGen Require Import Tables.
 Import ListNotations.
 Local Open Scope string_scope.
@@ -75,17 +76,80 @@ Proof.
   intros Hc Hp [f1 H1] [f2 H2]. ev_start (Nat.max f1 f2). rewrite Hc. apply Nat.leb_le in Hp. rewrite Hp, H1 by lia. apply H2. lia.
 Qed.
 
-Lemma Ev_expr_lam' n ts r b r' res :
-  classify_prefix ts = PLam r ->
-  node_prec_Lambda <= n -> Ev (MExpr slot_Lambda_body) r (b, r') -> Ev (MLoop n (lambda0 b) CNone) r' res ->
-  Ev (MExpr n) ts res.
-Proof.
-  intros Hc Hp [f1 H1] [f2 H2]. ev_start (Nat.max f1 f2). rewrite Hc. apply Nat.leb_le in Hp. rewrite Hp, H1 by lia. apply H2. lia.
-Qed.
-Lemma Ev_expr_lam n r b r' res :
-  node_prec_Lambda <= n -> Ev (MExpr slot_Lambda_body) r (b, r') -> Ev (MLoop n (lambda0 b) CNone) r' res ->
-  Ev (MExpr n) (PK "lambda" :: PK ":" :: r) res.
+Lemma Ev_expr_lam' n ts r res :
+  classify_prefix ts = PLam r -> node_prec_Lambda <= n -> Ev (MParams n pst0) r res -> Ev (MExpr n) ts res.
+Proof. intros Hc Hp [f1 H1]. ev_start f1. rewrite Hc. apply Nat.leb_le in Hp. rewrite Hp. apply H1. lia. Qed.
+Lemma Ev_expr_lam n r res :
+  node_prec_Lambda <= n -> Ev (MParams n pst0) r res -> Ev (MExpr n) (PK "lambda" :: r) res.
 Proof. apply Ev_expr_lam'. reflexivity. Qed.
+
+(* ---------- the parameters of a lambda ---------- *)
+Definition pcont (n : nat) (st : pst) (rest : list pt) (res : expr * list pt) : Prop :=
+  (exists r, rest = PK "," :: r /\ Ev (MParams n st) r res) \/
+  (exists r, rest = PK ":" :: r /\ Ev (MParams n st) rest res).
+
+Lemma Ev_params_body n st r b r' res :
+  Ev (MExpr slot_Lambda_body) r (b, r') -> Ev (MLoop n (p_lambda st b) CNone) r' res -> Ev (MParams n st) (PK ":" :: r) res.
+Proof.
+  intros [f1 H1] [f2 H2]. ev_start (Nat.max f1 f2). cbn [hd_is is_key tl]. change (String.eqb ":" ":") with true. cbv iota.
+  rewrite H1 by lia. apply H2. lia.
+Qed.
+
+Ltac pcont_case Hc f0 :=
+  let r := fresh "r" in let f2 := fresh "f" in let E2 := fresh "E" in
+  destruct Hc as [[r [-> [f2 E2]]]|[r [-> [f2 E2]]]];
+  [ev_start (Nat.max f0 f2) | ev_start (Nat.max f0 f2)].
+
+Lemma Ev_params_slash n st r res : pcont n (p_slash st) r res -> Ev (MParams n st) (PK "/" :: r) res.
+Proof.
+  intros Hc. destruct Hc as [[r0 [-> [f2 E2]]]|[r0 [-> [f2 E2]]]]; ev_start f2; cbn [hd_is is_key];
+    change (String.eqb "/" ":") with false; cbv iota; change (String.eqb "/" "/") with true; cbv iota.
+  - change (String.eqb "," ",") with true. cbv iota. apply E2. lia.
+  - change (String.eqb ":" ",") with false. change (String.eqb ":" ":") with true. cbv iota. apply E2. lia.
+Qed.
+
+Lemma Ev_params_dstar n st k r res : pcont n (p_dstar st k) r res -> Ev (MParams n st) (PK "**" :: PN k :: r) res.
+Proof.
+  intros Hc. destruct Hc as [[r0 [-> [f2 E2]]]|[r0 [-> [f2 E2]]]]; ev_start f2; cbn [hd_is is_key];
+    change (String.eqb "**" ":") with false; cbv iota; change (String.eqb "**" "/") with false; change (String.eqb "**" "**") with true; cbv iota.
+  - change (String.eqb "," ",") with true. cbv iota. apply E2. lia.
+  - change (String.eqb ":" ",") with false. change (String.eqb ":" ":") with true. cbv iota. apply E2. lia.
+Qed.
+
+Lemma Ev_params_star_v n st v r res : pcont n (p_star st (Some v)) r res -> Ev (MParams n st) (PK "*" :: PN v :: r) res.
+Proof.
+  intros Hc. destruct Hc as [[r0 [-> [f2 E2]]]|[r0 [-> [f2 E2]]]]; ev_start f2; cbn [hd_is is_key];
+    change (String.eqb "*" ":") with false; cbv iota; change (String.eqb "*" "/") with false; change (String.eqb "*" "**") with false;
+    change (String.eqb "*" "*") with true; cbv iota.
+  - change (String.eqb "," ",") with true. cbv iota. apply E2. lia.
+  - change (String.eqb ":" ",") with false. change (String.eqb ":" ":") with true. cbv iota. apply E2. lia.
+Qed.
+
+Lemma Ev_params_star0 n st r res : pcont n (p_star st None) r res -> Ev (MParams n st) (PK "*" :: r) res.
+Proof.
+  intros Hc. destruct Hc as [[r0 [-> [f2 E2]]]|[r0 [-> [f2 E2]]]]; ev_start f2; cbn [hd_is is_key];
+    change (String.eqb "*" ":") with false; cbv iota; change (String.eqb "*" "/") with false; change (String.eqb "*" "**") with false;
+    change (String.eqb "*" "*") with true; cbv iota.
+  - change (String.eqb "," ",") with true. cbv iota. apply E2. lia.
+  - change (String.eqb ":" ",") with false. change (String.eqb ":" ":") with true. cbv iota. apply E2. lia.
+Qed.
+
+Lemma Ev_params_name n st x r res : pcont n (p_name st x None) r res -> Ev (MParams n st) (PN x :: r) res.
+Proof.
+  intros Hc. destruct Hc as [[r0 [-> [f2 E2]]]|[r0 [-> [f2 E2]]]]; ev_start f2; cbn [hd_is is_key].
+  - change (String.eqb "," "=") with false. cbv iota. change (String.eqb "," ",") with true. cbv iota. apply E2. lia.
+  - change (String.eqb ":" "=") with false. cbv iota. change (String.eqb ":" ",") with false. change (String.eqb ":" ":") with true. cbv iota. apply E2. lia.
+Qed.
+
+Lemma Ev_params_default n st x r0 d r' res :
+  Ev (MExpr slot_Lambda_default) r0 (d, r') -> pcont n (p_name st x (Some d)) r' res ->
+  Ev (MParams n st) (PN x :: PK "=" :: r0) res.
+Proof.
+  intros [f1 E1] Hc. destruct Hc as [[r1 [-> [f2 E2]]]|[r1 [-> [f2 E2]]]]; ev_start (Nat.max f1 f2); cbn [hd_is is_key tl];
+    change (String.eqb "=" "=") with true; cbv iota; rewrite E1 by lia.
+  - change (String.eqb "," ",") with true. cbv iota. apply E2. lia.
+  - change (String.eqb ":" ",") with false. change (String.eqb ":" ":") with true. cbv iota. apply E2. lia.
+Qed.
 
 Lemma Ev_expr_wal' n ts t r v r' res :
   classify_prefix ts = PWal t r ->
@@ -477,8 +541,7 @@ Proof.
   - (* NamedExpr *) destruct (rest_ok_desc s rest DWal Hr Hp) as [He Hl]. rewrite He. cbn [andb].
     destruct (Nat.leb (node_prec e) slot_NamedExpr_value) eqn:E; [|reflexivity].
     apply Nat.leb_le in E. apply (IHe (ec_core _ Hc) s rest); [cbn [d_rl] in Hl; lia|exact Hr].
-  - (* Lambda *) destruct po; [|discriminate]. destruct ar; [|discriminate]. destruct va; [discriminate|]. destruct ko; [|discriminate].
-    destruct kd; [|discriminate]. destruct kw; [discriminate|]. destruct de; [|discriminate].
+  - (* Lambda *) apply andb_prop in Hc as [Hc _]. apply andb_prop in Hc as [Hc _]. apply andb_prop in Hc as [Hc _]. apply andb_prop in Hc as [Hc _].
     destruct (rest_ok_desc s rest DLam Hr Hp) as [He Hl]. rewrite He. cbn [andb].
     destruct (Nat.leb (node_prec e) slot_Lambda_body) eqn:E; [|reflexivity].
     apply Nat.leb_le in E. apply (IHe (ec_core _ Hc) s rest); [cbn [d_rl] in Hl; lia|exact Hr].
@@ -1170,6 +1233,224 @@ Proof.
     specialize (IH vs' (k :: accK) (v :: accV) Hlen HK' HV'). cbn [rev] in IH. rewrite <- !app_assoc in IH. exact IH.
 Qed.
 
+(* ---------- lambda parameters ---------- *)
+Definition imap {A B} (f : A -> B) (i : pitem A) : pitem B :=
+  match i with IName x d => IName x (option_map f d) | ISlash => ISlash | IStar v => IStar v | IDStar k => IDStar k end.
+
+Lemma zipd_map {A B} (f : A -> B) : forall names nd de, zipd names nd (map f de) = map (imap f) (zipd names nd de).
+Proof.
+  induction names as [|x r IH]; intros nd de; [reflexivity|]. cbn [zipd]. destruct nd as [|k].
+  - destruct de as [|d de']; cbn [map]; [rewrite <- (IH 0 []); reflexivity|rewrite IH; reflexivity].
+  - rewrite IH. reflexivity.
+Qed.
+Lemma zipk_map {A B} (f : A -> B) : forall ko kd, zipk ko (map (option_map f) kd) = map (imap f) (zipk ko kd).
+Proof.
+  induction ko as [|k r IH]; intros kd; [destruct kd; reflexivity|]. destruct kd as [|d kd']; cbn [zipk map].
+  - rewrite <- (IH []). reflexivity.
+  - rewrite IH. reflexivity.
+Qed.
+Lemma litems_map {A B} (f : A -> B) po ar va ko kw de kd :
+  litems po ar va ko kw (map f de) (map (option_map f) kd) = map (imap f) (litems po ar va ko kw de kd).
+Proof.
+  unfold litems. rewrite map_length, zipd_map, zipk_map.
+  rewrite !map_app. f_equal; [|f_equal; [destruct va; [reflexivity|destruct ko; reflexivity]|f_equal; destruct kw; reflexivity]].
+  destruct po; [reflexivity|]. rewrite map_app, firstn_map. cbn [map]. rewrite skipn_map. reflexivity.
+Qed.
+
+Definition itoks_e (i : pitem expr) : list pt :=
+  match i with
+  | IName x None => [PN x]
+  | IName x (Some d) => PN x :: PK "=" :: pp slot_Lambda_default d
+  | ISlash => [PK "/"]
+  | IStar None => [PK "*"]
+  | IStar (Some v) => [PK "*"; PN v]
+  | IDStar k => [PK "**"; PN k]
+  end.
+Lemma itoks_imap i : itoks_l (imap (pp slot_Lambda_default) i) = itoks_e i.
+Proof. destruct i as [x [d|]| |[v|]|k]; reflexivity. Qed.
+
+Definition consume (st : pst) (i : pitem expr) : pst :=
+  match i with
+  | IName x d => p_name st x d
+  | ISlash => p_slash st
+  | IStar v => p_star st v
+  | IDStar k => p_dstar st k
+  end.
+Definition pitemP (i : pitem expr) : Prop := match i with IName _ (Some d) => opP d | _ => True end.
+
+Lemma pitem_step n st i rest res : pitemP i -> pcont n (consume st i) rest res -> Ev (MParams n st) (itoks_e i ++ rest) res.
+Proof.
+  intros Hi Hc. destruct i as [x [d|]| |[v|]|k]; cbn [itoks_e consume app] in *.
+  - destruct Hi as [Cd [Nd Ad]].
+    assert (Hk : exists k r, rest = PK k :: r /\ closer k = true).
+    { destruct Hc as [[r [-> _]]|[r [-> _]]]; eexists _, _; split; reflexivity. }
+    destruct Hk as [k [r [-> Hk]]].
+    eapply Ev_params_default; [|exact Hc].
+    apply closed_child; [exact Cd|exact Nd|exact Ad|exact Hk|right; apply Nat.le_refl].
+  - apply Ev_params_name. exact Hc.
+  - apply Ev_params_slash. exact Hc.
+  - apply Ev_params_star_v. exact Hc.
+  - apply Ev_params_star0. exact Hc.
+  - apply Ev_params_dstar. exact Hc.
+Qed.
+
+Lemma params_chain n tail res : forall items st, items <> [] -> Forall pitemP items ->
+  Ev (MParams n (fold_left consume items st)) (PK ":" :: tail) res ->
+  Ev (MParams n st) (join [PK ","] (map itoks_e items) ++ PK ":" :: tail) res.
+Proof.
+  induction items as [|i t IH]; intros st Hne HF H; [contradiction|]. inversion HF as [|? ? Hi HF']; subst.
+  destruct t as [|i2 t'].
+  - cbn [map join fold_left] in *. apply pitem_step; [exact Hi|]. right. eexists. split; [reflexivity|exact H].
+  - cbn [map]. rewrite join_cons2. fold (map itoks_e (i2 :: t')). rewrite <- !app_assoc. cbn [app].
+    apply pitem_step; [exact Hi|]. left. eexists. split; [reflexivity|].
+    apply IH; [discriminate|exact HF'|exact H].
+Qed.
+
+(* what the items add up to *)
+Definition pinames (l : list (pitem expr)) : list ident := flat_map (fun i => match i with IName x _ => [x] | _ => [] end) l.
+Definition idefs (l : list (pitem expr)) : list expr := flat_map (fun i => match i with IName _ (Some d) => [d] | _ => [] end) l.
+Definition idopts (l : list (pitem expr)) : list (option expr) := flat_map (fun i => match i with IName _ d => [d] | _ => [] end) l.
+Definition all_names (l : list (pitem expr)) : Prop := Forall (fun i => match i with IName _ _ => True | _ => False end) l.
+
+Lemma pfold_pos : forall l st, all_names l -> q_star st = false ->
+  fold_left consume l st = mkP (q_po st) (rev (pinames l) ++ q_ar st) (q_va st) false (q_ko st) (q_kd st) (q_kw st) (rev (idefs l) ++ q_de st).
+Proof.
+  induction l as [|i t IH]; intros st Hn Hs; [destruct st; cbn in *; subst; reflexivity|].
+  inversion Hn as [|? ? Hi Ht]; subst. destruct i as [x d| | |]; try contradiction.
+  cbn [fold_left consume]. rewrite IH; [|exact Ht|unfold p_name; rewrite Hs; reflexivity].
+  unfold p_name. rewrite Hs. cbn [q_po q_ar q_va q_ko q_kd q_kw q_de pinames idefs flat_map].
+  destruct d as [e|]; cbn [app rev]; rewrite <- !app_assoc; reflexivity.
+Qed.
+
+Lemma pfold_kwn : forall l st, all_names l -> q_star st = true ->
+  fold_left consume l st = mkP (q_po st) (q_ar st) (q_va st) true (rev (pinames l) ++ q_ko st) (rev (idopts l) ++ q_kd st) (q_kw st) (q_de st).
+Proof.
+  induction l as [|i t IH]; intros st Hn Hs; [destruct st; cbn in *; subst; reflexivity|].
+  inversion Hn as [|? ? Hi Ht]; subst. destruct i as [x d| | |]; try contradiction.
+  cbn [fold_left consume]. rewrite IH; [|exact Ht|unfold p_name; rewrite Hs; reflexivity].
+  unfold p_name. rewrite Hs. cbn [q_po q_ar q_va q_ko q_kd q_kw q_de pinames idopts flat_map app rev]. rewrite <- !app_assoc. reflexivity.
+Qed.
+
+Lemma zipd_names : forall names nd de, all_names (zipd names nd de) /\ pinames (zipd names nd de) = names.
+Proof.
+  induction names as [|x r IH]; intros nd de; [split; [constructor|reflexivity]|]. cbn [zipd].
+  destruct nd as [|k]; [destruct de as [|d de']|]; (split; [constructor; [exact I|apply IH]|cbn [pinames flat_map app]; f_equal; apply IH]).
+Qed.
+Lemma zipd_defs : forall names nd de, nd + length de = length names -> idefs (zipd names nd de) = de.
+Proof.
+  induction names as [|x r IH]; intros nd de H; cbn [zipd].
+  - destruct de; [reflexivity|cbn in H; lia].
+  - destruct nd as [|k].
+    + destruct de as [|d de']; [cbn in H; lia|]. cbn [idefs flat_map app]. f_equal. apply IH. cbn in H. lia.
+    + cbn [idefs flat_map app]. apply IH. cbn in H. lia.
+Qed.
+Lemma zipk_names : forall ko kd, length kd = length ko -> all_names (zipk ko kd) /\ pinames (zipk ko kd) = ko /\ idopts (zipk ko kd) = kd.
+Proof.
+  induction ko as [|k r IH]; intros kd H; [destruct kd; [repeat split; constructor|discriminate]|].
+  destruct kd as [|d kd']; [discriminate|]. injection H as H. destruct (IH kd' H) as [A [B C]]. cbn [zipk].
+  split; [constructor; [exact I|exact A]|]. split; cbn [pinames idopts flat_map app]; f_equal; assumption.
+Qed.
+
+Lemma all_names_firstn : forall l k, all_names l -> all_names (firstn k l).
+Proof.
+  induction l as [|i t IH]; intros k H; [destruct k; constructor|]. inversion H as [|? ? Hi Ht]; subst.
+  destruct k; [constructor|]. cbn [firstn]. constructor; [exact Hi|apply IH; exact Ht].
+Qed.
+Lemma all_names_skipn : forall l k, all_names l -> all_names (skipn k l).
+Proof.
+  induction l as [|i t IH]; intros k H; [destruct k; constructor|]. inversion H as [|? ? Hi Ht]; subst.
+  destruct k; [exact H|]. cbn [skipn]. apply IH. exact Ht.
+Qed.
+
+Lemma pinames_firstn : forall l k, all_names l -> pinames (firstn k l) = firstn k (pinames l).
+Proof.
+  induction l as [|i t IH]; intros k H; [destruct k; reflexivity|]. inversion H as [|? ? Hi Ht]; subst.
+  destruct i; try contradiction. destruct k; [reflexivity|]. cbn [firstn pinames flat_map app]. f_equal. apply IH. exact Ht.
+Qed.
+Lemma pinames_skipn : forall l k, all_names l -> pinames (skipn k l) = skipn k (pinames l).
+Proof.
+  induction l as [|i t IH]; intros k H; [destruct k; reflexivity|]. inversion H as [|? ? Hi Ht]; subst.
+  destruct i; try contradiction. destruct k; [reflexivity|]. cbn [skipn pinames flat_map app]. apply IH. exact Ht.
+Qed.
+Lemma idefs_app a b : idefs (a ++ b) = idefs a ++ idefs b.
+Proof. unfold idefs. apply flat_map_app. Qed.
+
+Lemma zipd_itemP : forall names nd de, Forall opP de -> Forall pitemP (zipd names nd de).
+Proof.
+  induction names as [|x r IH]; intros nd de HF; [constructor|]. cbn [zipd]. destruct nd as [|k].
+  - destruct de as [|d de']; [constructor; [exact I|apply IH; constructor]|].
+    inversion HF as [|? ? Hd HF']; subst. constructor; [exact Hd|apply IH; exact HF'].
+  - constructor; [exact I|apply IH; exact HF].
+Qed.
+Lemma zipk_itemP : forall ko kd, Forall (fun o => match o with Some x => opP x | None => True end) kd -> Forall pitemP (zipk ko kd).
+Proof.
+  induction ko as [|k r IH]; intros kd HF; [destruct kd; constructor|]. destruct kd as [|d kd']; cbn [zipk].
+  - constructor; [exact I|apply IH; constructor].
+  - inversion HF as [|? ? Hd HF']; subst. constructor; [destruct d; [exact Hd|exact I]|apply IH; exact HF'].
+Qed.
+Lemma Forall_firstn {X} (P : X -> Prop) : forall l k, Forall P l -> Forall P (firstn k l).
+Proof. induction l as [|x t IH]; intros k H; [destruct k; constructor|]. inversion H; subst. destruct k; [constructor|]. cbn. constructor; [assumption|apply IH; assumption]. Qed.
+Lemma Forall_skipn {X} (P : X -> Prop) : forall l k, Forall P l -> Forall P (skipn k l).
+Proof. induction l as [|x t IH]; intros k H; [destruct k; constructor|]. inversion H; subst. destruct k; [exact H|]. cbn. apply IH; assumption. Qed.
+
+Lemma litems_itemP po ar va ko kw de kd :
+  Forall opP de -> Forall (fun o => match o with Some x => opP x | None => True end) kd -> Forall pitemP (litems po ar va ko kw de kd).
+Proof.
+  intros Hd Hk. unfold litems. apply Forall_app. split.
+  - pose proof (zipd_itemP (po ++ ar) (length (po ++ ar) - length de) de Hd) as HZ.
+    destruct po; [exact HZ|]. apply Forall_app. split; [apply Forall_firstn; exact HZ|constructor; [exact I|apply Forall_skipn; exact HZ]].
+  - apply Forall_app. split; [destruct va; [repeat constructor|destruct ko; repeat constructor]|].
+    apply Forall_app. split; [apply zipk_itemP; exact Hk|destruct kw; repeat constructor].
+Qed.
+
+Lemma firstn_len_app {X} (a b : list X) : firstn (length a) (a ++ b) = a.
+Proof. induction a as [|x t IH]; [reflexivity|]. cbn. f_equal. exact IH. Qed.
+Lemma skipn_len_app {X} (a b : list X) : skipn (length a) (a ++ b) = b.
+Proof. induction a as [|x t IH]; [reflexivity|]. cbn. exact IH. Qed.
+
+Theorem params_final po ar va ko kd kw de body :
+  length de <= length (po ++ ar) -> length kd = length ko ->
+  p_lambda (fold_left consume (litems po ar va ko kw de kd) pst0) body = Lambda po ar va ko kd kw de body.
+Proof.
+  intros Hde Hkd. unfold litems. set (names := po ++ ar). set (Z := zipd names (length names - length de) de).
+  destruct (zipd_names names (length names - length de) de) as [HZn HZi]. fold Z in HZn, HZi.
+  assert (HZd : idefs Z = de) by (apply zipd_defs; subst names; lia).
+  destruct (zipk_names ko kd Hkd) as [HKn [HKi HKd]].
+  (* the positional part *)
+  assert (Hpos : fold_left consume (match po with [] => Z | _ => firstn (length po) Z ++ ISlash :: skipn (length po) Z end) pst0
+                 = mkP po (rev ar) None false [] [] None (rev de)).
+  { destruct po as [|p0 pr].
+    - rewrite pfold_pos; [|exact HZn|reflexivity]. cbn [pst0 q_po q_ar q_va q_ko q_kd q_kw q_de]. rewrite !app_nil_r, HZi, HZd. reflexivity.
+    - set (po := p0 :: pr) in *. rewrite fold_left_app. cbn [fold_left].
+      rewrite (pfold_pos (firstn (length po) Z)); [|apply all_names_firstn; exact HZn|reflexivity].
+      cbn [consume]. unfold p_slash. cbn [pst0 q_po q_ar q_va q_star q_ko q_kd q_kw q_de].
+      rewrite (pfold_pos (skipn (length po) Z)); [|apply all_names_skipn; exact HZn|reflexivity].
+      cbn [q_po q_ar q_va q_star q_ko q_kd q_kw q_de]. rewrite !app_nil_r, rev_involutive.
+      rewrite pinames_firstn, pinames_skipn, HZi by exact HZn.
+      assert (F1 : firstn (length po) names = po) by (apply firstn_len_app).
+      assert (F2 : skipn (length po) names = ar) by (apply skipn_len_app).
+      rewrite F1, F2. rewrite <- rev_app_distr, <- idefs_app, firstn_skipn, HZd. reflexivity. }
+  rewrite !fold_left_app, Hpos.
+  (* star, keyword-only, ** *)
+  assert (Hfin : forall st0, q_po st0 = po -> q_ar st0 = rev ar -> q_de st0 = rev de -> q_ko st0 = [] -> q_kd st0 = [] -> q_kw st0 = None ->
+            (q_star st0 = true \/ ko = []) -> q_va st0 = va ->
+            p_lambda (fold_left consume (match kw with Some k => [IDStar k] | None => [] end) (fold_left consume (zipk ko kd) st0)) body
+            = Lambda po ar va ko kd kw de body).
+  { intros st0 E1 E2 E3 E4 E5 E6 Hst E7.
+    assert (Hk : fold_left consume (zipk ko kd) st0 = mkP po (rev ar) va (q_star st0) (rev ko) (rev kd) None (rev de)).
+    { destruct Hst as [Hst|Hko].
+      - rewrite pfold_kwn; [|exact HKn|exact Hst]. rewrite HKi, HKd, E1, E2, E3, E4, E5, E6, E7, Hst, !app_nil_r. reflexivity.
+      - subst ko. destruct kd; [|discriminate]. cbn [zipk fold_left rev].
+        destruct st0 as [a1 a2 a3 a4 a5 a6 a7 a8]; cbn [q_po q_ar q_va q_star q_ko q_kd q_kw q_de] in *. subst a1 a2 a3 a5 a6 a7 a8. reflexivity. }
+    rewrite Hk. destruct kw as [k|]; cbn [fold_left consume]; unfold p_lambda, p_dstar; cbn [q_po q_ar q_va q_ko q_kd q_kw q_de];
+      rewrite !rev_involutive; reflexivity. }
+  destruct va as [v|].
+  - cbn [fold_left consume]. apply Hfin; try reflexivity. left. reflexivity.
+  - destruct ko as [|k0 kr] eqn:Eko.
+    + cbn [fold_left]. apply Hfin; try reflexivity. right. reflexivity.
+    + rewrite <- Eko in *. cbn [fold_left consume]. apply Hfin; try reflexivity. left. reflexivity.
+Qed.
+
 Lemma safe_parts d rest (b : bool) : edge d rest && b = true -> edge d rest = true /\ b = true.
 Proof. intros H. apply andb_prop in H. exact H. Qed.
 
@@ -1457,12 +1738,26 @@ Proof.
     cbn [safe] in Hs. apply safe_parts in Hs as [He Hsub]. cbn [node_prec] in Hp. cbn [app].
     eapply Ev_expr_wal; [exact Hp| |exact Hloop].
     apply right_child; [exact C|exact N|exact A|exact Hsub|exact (edge_stop _ _ He)].
-  - (* Lambda *) destruct po; [|discriminate]. destruct ar; [|discriminate]. destruct va; [discriminate|]. destruct ko; [|discriminate].
-    destruct kd; [|discriminate]. destruct kw; [discriminate|]. destruct de; [|discriminate].
-    destruct (P_use e IHe Hc) as [C [N A]].
+  - (* Lambda *) apply andb_prop in Hc as [Hc Hckd]. apply andb_prop in Hc as [Hc Hcde]. apply andb_prop in Hc as [Hc Hlk].
+    apply andb_prop in Hc as [Hcb Hld]. apply Nat.leb_le in Hld. apply Nat.eqb_eq in Hlk.
+    destruct (P_use e IHe Hcb) as [C [N A]].
+    assert (HDE : Forall opP de) by (unfold Pl in H0; apply Forall_P_ops; assumption).
+    assert (HKD : Forall (fun o => match o with Some x => opP x | None => True end) kd).
+    { rewrite forallb_forall in Hckd. rewrite Forall_forall in H |- *. intros o Ho. specialize (H o Ho). specialize (Hckd o Ho).
+      destruct o as [x|]; [|exact I]. apply P_use; assumption. }
     cbn [safe] in Hs. apply safe_parts in Hs as [He Hsub]. cbn [node_prec] in Hp. cbn [app].
-    eapply Ev_expr_lam; [exact Hp| |exact Hloop].
-    apply right_child; [exact C|exact N|exact A|exact Hsub|exact (edge_stop _ _ He)].
+    change (map (fun o : option expr => match o with Some x => Some (pp slot_Lambda_kwdefault x) | None => None end) kd)
+      with (map (option_map (pp slot_Lambda_default)) kd).
+    rewrite litems_map, map_map, (map_ext _ _ itoks_imap). rewrite <- app_assoc. cbn [app].
+    apply Ev_expr_lam; [exact Hp|].
+    assert (Hbody : forall st, p_lambda st e = Lambda po ar va ko kd kw de e ->
+               Ev (MParams n st) (PK ":" :: pp slot_Lambda_body e ++ rest) res).
+    { intros st Est. eapply Ev_params_body; [|rewrite Est; exact Hloop].
+      apply right_child; [exact C|exact N|exact A|exact Hsub|exact (edge_stop _ _ He)]. }
+    pose proof (params_final po ar va ko kd kw de e Hld Hlk) as Hfin.
+    destruct (litems po ar va ko kw de kd) as [|i0 it] eqn:Ei.
+    + cbn [map join app]. apply Hbody. exact Hfin.
+    + rewrite <- Ei in *. apply params_chain; [rewrite Ei; discriminate|apply litems_itemP; assumption|]. apply Hbody. exact Hfin.
   - (* ListComp *) apply andb_prop in Hc as [Hc Hgs]. apply andb_prop in Hc as [Hcx Hlen].
     destruct (P_use e IHe Hcx) as [C [N A]]. pose proof (Forall_P_gens _ H Hgs) as HG.
     cbn [app]. rewrite <- !app_assoc. cbn [app].
